@@ -25,8 +25,13 @@ pub const WARM_UP: &[&str] = &[
 pub fn warm_up_here() {
     let interp = Interpreter::with_stdlib();
     for src in WARM_UP {
-        let code = Code::parse(&interp, src).unwrap_or_else(|e| panic!("warm-up script rejected: {src}: {e}"));
-        let _ = code.exec();
+        // a warm-up script that the tree under test rejects - or that makes it panic - warms up
+        // nothing; it must not take the worker down (the checks are there to report that)
+        let _ = crate::run::guarded(|| {
+            if let Ok(code) = Code::parse(&interp, src) {
+                let _ = code.exec();
+            }
+        });
     }
     // Type::from_str / Variable::from_str paths
     let _ = "mut (int|string)".parse::<simplesl::variable::Type>();
